@@ -116,13 +116,13 @@ var checks = map[string]*Check{
 	"C11": {ID: "C11", Parts: []Part{{Harness: "core", Func: "C11"}, {Harness: "mcrew", Func: "C11mcrew", OneProc: true}}, Category: "exploration", QuickDeadline: 240, ThoroughDeadline: 1500, CrashIsViolation: true, Workers: 8,
 		Engine: "E1", DesignRef: "6/C11",
 		Technique:   "bounded-exhaustive enumeration of looping script shapes x cancellation points (context cancelled at the k-th harness tick, pre-cancelled, pre-expired, real deadlines) x routing x concurrency, with a logical (tick-count) bound on progress after cancellation and a goroutine-leak check by runtime.Stack",
-		LevelText:   "Every combination of looping script shape, position (action/guard), cancellation point, error routing and number of concurrent executions is run on the real interpreter and engine; the call must return, the script must not keep running after its context is done (bounded in ticks, not in milliseconds), the failure must be the timeout error routed like any action error, and no goroutine started for the call may survive it.",
+		LevelText:   "Every combination of looping script shape, position (action/guard), cancellation point, error routing and number of concurrent executions is run on the real interpreter and engine; the call must return, the script must not keep running after its context is done (bounded in ticks, not in milliseconds), the failure must be the timeout error routed like any action error, and no goroutine started for the call may survive it. On the mcrew host: a looping machine reached directly and through a relay (emitted messages are processed on the service's own goroutines) while the request's context ends at tick 0..6.",
 		LevelNote:   "Only partly within the family: the cancellation point is an enumerated choice, but what happens inside goja between the cancel and the interruption is not under the scheduler's control; 'promptly' is weakened to a tick-count bound and a 90 s horizon. Real deadlines use the real clock.",
 		Assumptions: commonAssumptions},
 	"C10": {ID: "C10", Parts: []Part{{Harness: "core", Func: "C10"}, {Harness: "corec", Func: "C10c", Race: true}, {Harness: "sio", Func: "C10sio"}}, GoMaxProcs: 1, Category: "exploration", QuickDeadline: 240, ThoroughDeadline: 1500,
 		Engine: "E1+E2", DesignRef: "6/C10",
 		Technique:   "bounded-exhaustive enumeration of (polluter, [polluter,] probe) script sequences with solo-equivalence and caller-snapshot oracles; stateless schedule exploration of concurrent executions of one compiled source (with a race-detector pass)",
-		LevelText:   "Every ordered pair and triple of polluting scripts and probe scripts is executed on the real interpreter (directly and through Spec.Walk, with shared compiled programs and shared caller objects): the probe must observe nothing, the caller's bindings and props must be unchanged.",
+		LevelText:   "Every ordered pair and triple of polluting scripts and probe scripts is executed on the real interpreter (directly and through Spec.Walk, with shared compiled programs and shared caller objects): the probe must observe nothing, the caller's bindings and props must be unchanged. On the sio host: a script that writes into everything reachable through the step properties the crew hands it changes nothing for the next machine or for the routing.",
 		LevelNote:   "Trusted: the script vocabulary as a stand-in for 'whatever a script does'; goja itself.",
 		Assumptions: commonAssumptions},
 	"C12": {ID: "C12", Parts: []Part{{Harness: "corec", Func: "C12", Race: true}, {Harness: "mcrew", Func: "C12mcrew", Race: true}, {Harness: "sio", Func: "C12sio", Race: true}}, Category: "model_checking", QuickDeadline: 240, ThoroughDeadline: 1500, GoMaxProcs: 1,
@@ -140,13 +140,13 @@ var checks = map[string]*Check{
 	"C03": {ID: "C03", Parts: []Part{{Harness: "match", Func: "C03", Race: true}, {Harness: "core", Func: "C03js"}}, Category: "model_checking", QuickDeadline: 240, ThoroughDeadline: 1500, Race: true,
 		Engine: "E1", DesignRef: "6/C03",
 		Technique:   "bounded-exhaustive input enumeration x deviation-bounded exhaustive exploration of map-iteration orders (every range over a map is an explicit choice point owned by the explorer) with deep argument snapshots; plus a free-running race-detector pass with shared arguments",
-		LevelText:   "For every triple of the space the real matcher is executed under every combination of map-iteration orders with up to k deviating range executions; the result multiset and error outcome must not depend on the order, the arguments must be untouched (deep snapshots), results must be independent maps. A separate -race build matches the same argument objects from three goroutines.",
+		LevelText:   "For every triple of the space the real matcher is executed under every combination of map-iteration orders with up to k deviating range executions; the result multiset and error outcome must not depend on the order, the arguments must be untouched (deep snapshots), results must be independent maps. A separate -race build matches the same argument objects from three goroutines. As scripts do it: _.match evaluated three times with equal arguments, the script editing the sets it got in between.",
 		LevelNote:   "Trusted: the range rewrite (vinstr) and vrange.Keys; ThreadSanitizer for the concurrent clause (goroutines share no synchronisation, so the happens-before verdict is schedule independent). Orders of maps with more than 4 keys are not fully enumerated (rotations + reversal).",
 		Assumptions: commonAssumptions},
 	"C02": {ID: "C02", Parts: []Part{{Harness: "match", Func: "C02"}, {Harness: "core", Func: "C02step"}}, Category: "exploration", QuickDeadline: 240, ThoroughDeadline: 1500,
 		Engine: "E1", DesignRef: "6/C02",
 		Technique:   "bounded-exhaustive enumeration of (pattern, message) pairs against a reference backtracking enumerator of embeddings, plus exhaustive planting (instantiated pattern + every insertion of distractors up to k)",
-		LevelText:   "Every small pattern/message pair over a two-letter alphabet is matched by the real matcher and by a plain backtracking reference: every embedding must be returned (and nothing else for plain patterns). Deeper: every assignment is planted into the instantiated pattern and buried under every combination of up to k partially-matching distractors; the planted assignment must be found.",
+		LevelText:   "Every small pattern/message pair over a two-letter alphabet is matched by the real matcher and by a plain backtracking reference: every embedding must be returned (and nothing else for plain patterns). Deeper: every assignment is planted into the instantiated pattern and buried under every combination of up to k partially-matching distractors; the planted assignment must be found. As the engine does it: a guard on a branch is offered exactly the binding sets Match yields for (pattern, message, the machine's bindings), each once.",
 		LevelNote:   "Trusted: reference enumerator rt/ref/rmatch.Embeddings. Side conditions of the property (arrays as sets, repeated variables scalar, planted array value distinct from constant members) are enforced by the generator; inequality variables are not part of this check.",
 		Assumptions: commonAssumptions},
 	"C13": {ID: "C13", Parts: []Part{{Harness: "core", Func: "C13"}, {Harness: "sio", Func: "C13sio"}, {Harness: "mcrew", Func: "C13mcrew"}, {Harness: "tools", Func: "C13inline"}, {Harness: "msimple", Func: "C13msimple"}, {Harness: "spectool", Func: "C13spectool"}, {Harness: "mdb", Func: "C13mdb"}}, Category: "exploration", QuickDeadline: 240, ThoroughDeadline: 1500,
@@ -182,13 +182,13 @@ var checks = map[string]*Check{
 	"C18": {ID: "C18", Parts: []Part{{Harness: "core", Func: "C18"}, {Harness: "corec", Func: "C18c", Race: true}, {Harness: "sio", Func: "C18sio"}}, GoMaxProcs: 1, Category: "exploration", QuickDeadline: 200, ThoroughDeadline: 900,
 		Engine: "E1+E2", DesignRef: "6/C18",
 		Technique:   "bounded-exhaustive enumeration of states with permanent bindings x action/guard programs x node shapes x error routing on the real Spec.Step; plus stateless schedule exploration (with a ThreadSanitizer pass) of machines with different permanent bindings walked concurrently over one compiled spec",
-		LevelText:   "All combinations of a state universe with permanent bindings and an action/guard program list covering every way of returning bindings (and of failing) are executed through Spec.Step with every error-routing setting; whenever a state results every permanent binding must be present and unchanged; no crash. Concurrent part: every interleaving (within the deviation bound) of 2-3 walks of machines with different permanent bindings over one compiled spec whose actions and guards delete and overwrite them; each walk must equal its solo walk.",
+		LevelText:   "All combinations of a state universe with permanent bindings and an action/guard program list covering every way of returning bindings (and of failing) are executed through Spec.Step with every error-routing setting; whenever a state results every permanent binding must be present and unchanged; no crash. Concurrent part: every interleaving (within the deviation bound) of 2-3 walks of machines with different permanent bindings over one compiled spec whose actions and guards delete and overwrite them; each walk must equal its solo walk. On the sio host: specifications with boot / toob sources and actions of every kind, the host creating, re-specifying and messaging the machine - its permanent bindings stay.",
 		LevelNote:   "Trusted: action-language renderers. Only the listed programs and states are covered.",
 		Assumptions: commonAssumptions},
 	"C05": {ID: "C05", Parts: []Part{{Harness: "core", Func: "C05"}, {Harness: "sio", Func: "C05sio"}}, Category: "model_checking", QuickDeadline: 200, ThoroughDeadline: 1500,
 		Engine: "E1", DesignRef: "6/C05",
 		Technique:   "explicit enumeration of all histories (spec x start state x message sequence x batch split x limit x breakpoint) on the real Spec.Walk with per-walk invariants, a reference walk and a split differential",
-		LevelText:   "All walks of a finite family of 3-node specifications over all short message histories, every split into batches, a range of step limits and breakpoints are executed on the real Spec.Walk; ordered exactly-once consumption, the step bound, the truthful remainder, chain continuity, quiescence on Done, equality with a reference walk and split-independence are checked on every one.",
+		LevelText:   "All walks of a finite family of 3-node specifications over all short message histories, every split into batches, a range of step limits and breakpoints are executed on the real Spec.Walk; ordered exactly-once consumption, the step bound, the truthful remainder, chain continuity, quiescence on Done, equality with a reference walk and split-independence are checked on every one. On the sio host: cascades of emitted messages of every length up to 140 (and trees) through Crew.ProcessMsg - every cascade message consumed once, in order.",
 		LevelNote:   "Trusted: reference walk/step (rt/ref/rstep), action-language model. Specs are limited to 3 nodes from a fixed template list; sequences to the stated length.",
 		Assumptions: append([]string{"deterministic actions and guards only (as the property states)"}, commonAssumptions...)},
 	"C04": {ID: "C04", Harness: "core", Func: "C04", Category: "exploration", QuickDeadline: 200, ThoroughDeadline: 1500,
@@ -200,7 +200,7 @@ var checks = map[string]*Check{
 	"C01": {ID: "C01", Parts: []Part{{Harness: "match", Func: "C01"}, {Harness: "core", Func: "C01step"}}, Category: "exploration", QuickDeadline: 150, ThoroughDeadline: 1500,
 		Engine: "E1", DesignRef: "6/C01",
 		Technique:   "bounded-exhaustive enumeration of (pattern, message, bindings) triples against a reference containment relation (explicit enumeration, no sampling)",
-		LevelText:   "Every triple of the stated finite space is executed on the real match.Match and every returned binding set is checked against an independent containment relation; exhaustive within the size bounds, nothing beyond them.",
+		LevelText:   "Every triple of the stated finite space is executed on the real match.Match and every returned binding set is checked against an independent containment relation; exhaustive within the size bounds, nothing beyond them. The same for matching as the engine does it: every small pattern as the pattern of a branch, the machine's bindings as the given bindings - the state a step arrives at must be a sound match, and the branch is followed exactly when Match on those arguments yields one binding set.",
 		LevelNote:   "Trusted: the reference relation rt/ref/rmatch (written from the documentation), the enumerator, the Go toolchain. Values outside the alphabet and sizes above the bound are not covered.",
 		Assumptions: append([]string{"reference containment relation rt/ref/rmatch is the oracle (independent of match.go)"}, commonAssumptions...)},
 }
